@@ -8,7 +8,8 @@ again gives the same decisions, (e) the postings `equity` emits per account agai
 name and the amount in the raw bytes of every printed posting line against `posting_blanks`.
 Oracle (property text, implementation only, Fractions through verif_rational): every printed posting line keeps the account name
 at least two blanks (or a tab) away from the amount; rows of J (date, aux date, state, code,
-payee, account, virtual, note, tags, exact amount, exact cost) equal the rows of `print J` re-read; print(print J) is
+payee, account, virtual, note, tags, exact amount, exact cost) equal the rows of `print J` re-read; the cost text of every printed
+posting denotes the cost as written (kind, (virtual) marking, exact number, commodity), and the price history (`prices`) is the same after the round trip; print(print J) is
 byte-identical to print J; `bal` of the re-read `equity J` equals `bal J` per account and commodity."""
 import re
 from fractions import Fraction as F
@@ -1050,7 +1051,7 @@ def run(ctx, n_override=None):
     res.rule = ('accepted journals of 3-10 transactions: two-posting shapes around the elision (real, [balanced], (virtual) pairs, '
                 'different written precision, equal lots, first/second elided in the source, costs, implied rate, zero amounts), exactly '
                 'balanced multi-commodity transactions with @/@@/(@) costs and virtual postings, one elided amount, excess-precision per-unit '
-                'costs at the half-unit boundary, lot sales with {price} [date] (tag), balance assignments/assertions, `0 X @ price`; '
+                'costs at the half-unit boundary, lot sales with {price} [date] (tag), postings with both a lot price and a written cost (@ / @@ / (@) / (@@), equal to or different from lot price x quantity, sales and purchases), balance assignments/assertions, `0 X @ price`; '
                 'account names of 30..45 characters placed around the account column of print (column-3 .. column+0, the longest at the column) with amounts of 9..14 and more characters, so that every gap 0..3 between name and amount occurs; decorated with states on transactions and postings (also a posting mark that differs from the mark of its transaction), codes, auxiliary dates, notes, tags, key: value metadata and unusual '
                 'payee/account text; non-trivial = a transaction with at least one such feature in a journal whose printed text re-reads; '
                 'distinct by rendered transaction text')
@@ -1145,6 +1146,23 @@ def replay(ctx, obj):
                 print('rows differ:', diff)
                 res.violations.append(dict(key='replay-rows', desc='the re-read rows differ from the original: %s' % diff, case=case,
                                            observed=str(diff), required='equal rows'))
+            h1 = parse_prices(lib.run_ledger(['-f', path, 'prices'] + NOW)[1])
+            h2 = parse_prices(lib.run_ledger(['-f', ppath, 'prices'] + NOW)[1])
+            if h1 is not None and (h2 is None or not same_prices(h1, h2)):
+                print('prices differ:', h1, h2)
+                res.violations.append(dict(key='replay-prices', desc='the price history differs after print and re-read', case=case,
+                                           observed=str(h2), required=str(h1)))
+
+            def total_costs(t):
+                out = []
+                for ls in tokenize_print(re.sub(r'^(\d\S*) ', r'\1 ', t, flags=re.M)).values():
+                    out += [l.split('|')[5] for l in ls if l.split('|')[5].startswith('t')]
+                return sorted(':'.join(c.split(':')[:-1]) for c in out)
+            w, g = total_costs(case['journal']), total_costs(P.decode('utf-8', 'replace'))
+            if any(w.count(c) > g.count(c) for c in w):
+                print('written total costs', w, 'printed', g)
+                res.violations.append(dict(key='replay-cost', desc='a written total cost is not shown by print: written %s, printed %s' % (w, g),
+                                           case=case, observed=str(g), required=str(w)))
             st3, P2, err3 = lib.run_ledger(['-f', ppath, 'print'] + NOW)
             if P2 != P and not differs_by_padding_only(P.decode('utf-8', 'replace'), P2.decode('utf-8', 'replace')):
                 print('print(print J) != print J')
